@@ -529,32 +529,27 @@ def s2_macro_inst(rep):
         clears = [e for e in f.all_elems() if e.is_assign and e.op == "=" and norm(e.kid(0)) == ERRNO and norm(e.kid(1)) == Z]
         ok = len(clears) == 1 and bool(convs) and all(f.dominates(clears[0], c) for c in convs) and not f.edge_conds(clears[0])
         rep.check(ok, "S2-macro", "%s: errno is cleared, unconditionally, before any conversion" % name, f.loc, "", function=name, construct="errno-clear")
-        # dispatch: which conversion is reached under which outcome of the two type probes
-        reach = {}
-        for c in convs:
-            at = set()
-            for cond, truth in f.edge_conds(c):
-                n = norm(cond)
-                at.add((show(strip_ids(n)), truth))
-            reach[c.callee] = at
-        xs = show(strip_ids(x))
-        fl = ("(((%s = 1) , (%s /= 2)) > 0)" % (xs, xs))
-        sg = ("((%s = -1) <= 0)" % xs)
-        sg2 = ("((%s = -1) > 0)" % xs)
-        want = {"parsenum_float": {(fl, True)}, "parsenum_signed": {(fl, False), (sg, True)}, "parsenum_unsigned": {(fl, False), (sg, False)}}
-        okd = True
-        why = []
-        for cal, at in reach.items():
-            # the second probe may be spelled either way round
-            probes = set((sg, not a[1]) if a[0] == sg2 else a for a in at if a[0] in (fl, sg, sg2))
-            if probes != want[cal]:
-                okd = False
-                why.append("%s reached under %s" % (cal, sorted(probes)))
-        # the conversion matching a target of this kind must be among those present (the others are dead for this target type
-        # only at run time: the macro cannot know the type, every arm is in the graph unless its arguments rule it out)
-        okd = okd and conv_of[kind] in reach
-        rep.check(okd, "S2-macro", "%s: the conversion is selected by the two type probes (1/2 > 0: float; -1 <= 0: signed; else unsigned)" % name, f.loc,
-                  "; ".join(why) or "%s" % sorted(reach), function=name, construct="dispatch")
+        # dispatch: the macro cannot name the target's type, it probes it (halving 1 leaves a fraction only in a float; -1 stays
+        # negative only in a signed type).  Evaluated here for this instantiation's target type (sa/finite.py): whatever the
+        # other arguments, the only conversion reached is the one for this kind of target
+        from .. import finite
+        pt = f.unit.types.get((f.unit.types.get(f.params[0]["ty"]) or {}).get("pointee")) or {}
+        if pt.get("kind") in ("float", "double", "real"):
+            model = "float"
+        elif pt.get("kind") in ("int", "enum", "bool") and pt.get("size"):
+            model = (bool(pt.get("signed")), 8 * pt["size"])
+        else:
+            raise cdb.AnalysisBroken("fixture %s: target type %s not understood" % (name, pt))
+        W = finite.Walker(f, {x: model}, lambda e: e.cls == "CallExpr" and e.callee in conv_of.values())
+        try:
+            outs = W.run(f.entry, 0, {x: None})
+        except finite.Budget:
+            raise cdb.AnalysisBroken("fixture %s: evaluation did not finish" % name)
+        reached = sorted(set(o[1].callee for o in outs if o[0] == "stop"))
+        early = [o for o in outs if o[0] == "ret"]
+        rep.check(reached == [conv_of[kind]] and not early, "S2-macro", "%s: a %s target is converted by %s and nothing else" % (name, kind, conv_of[kind]), f.loc,
+                  "conversions reached for this target type: %s%s" % (reached, "; the macro can also finish without converting" if early else ""),
+                  function=name, construct="dispatch")
         # unsigned: the type limit handed over is the target's all-ones value
         for c in convs:
             if c.callee == "parsenum_unsigned":
@@ -577,10 +572,12 @@ def s2_macro_inst(rep):
                       "%d such stores" % len(neg), function=name, construct="negative-max")
             for c in convs:
                 if c.callee == "parsenum_unsigned":
-                    mn = ("v", f.params[2]["name"])
-                    a1 = strip_ids(norm(c.arg(1)))
-                    okm = a1 == ("?:", ("<=", mn, Z), Z, mn) or a1 == ("?:", ("<", mn, Z), Z, mn) or a1 == ("?:", (">", mn, Z), mn, Z) or a1 == ("?:", (">=", mn, Z), mn, Z)
-                    rep.check(okm, "S2-macro", "%s: a negative lower bound for an unsigned target is clamped to 0" % name, c.where, show(a1), function=name, construct="min-clamp")
+                    mn = ("v", f.params[2]["name"], f.params[2]["id"])
+                    a1 = norm(c.arg(1))
+                    vals = [(v, finite.ev(a1, {mn: v})) for v in (-(2 ** 63), -5, -1, 0, 1, 9, 2 ** 63 - 1)]
+                    okm = all(got == max(v, 0) for v, got in vals)
+                    rep.check(okm, "S2-macro", "%s: a negative lower bound for an unsigned target is clamped to 0, others are passed on" % name, c.where,
+                              "%s evaluates to %s" % (show(a1), vals), function=name, construct="min-clamp")
         # the macro's value
         rets = list(f.returns())
         v = norm(rets[0].kid(0)) if len(rets) == 1 else None
